@@ -2,7 +2,7 @@
    (k8s/Spec.v) against what NGINX does (ngx/Eval.v) under the files the REAL pipeline generated for the
    same state (handler -> graph -> configuration -> generator), for every generated request. *)
 From Coq Require Import List String ZArith Bool Arith.
-From NGF Require Export lib.CaseLib lib.Str k8s.State k8s.Spec ngx.Lexer ngx.Eval.
+From NGF Require Export C02.PathSel lib.CaseLib lib.Str k8s.State k8s.Spec ngx.Lexer ngx.Eval.
 Import ListNotations.
 Local Open Scope string_scope.
 
@@ -10,7 +10,9 @@ Record case := Case {
   k_cluster : cluster;
   k_http : string;                 (* /etc/nginx/conf.d/http.conf as generated *)
   k_matches : matchtable;          (* /etc/nginx/conf.d/matches.json as generated *)
-  k_requests : list request
+  k_requests : list request;
+  (* the virtual servers of the configuration the handler built: port, server name, ssl, (exact, path) of the path rules *)
+  k_servers : list (Z * string * bool * list (bool * string))
 }.
 
 (* shares agree within one hundredth of a percent per backend; entries are merged by upstream name and
@@ -100,10 +102,72 @@ Definition check_request (cs : cluster) (conf : list dir) (tbl : matchtable) (q 
 Fixpoint dedup_nat (l : list nat) : list nat :=
   match l with [] => [] | x :: l' => if existsb (Nat.eqb x) l' then dedup_nat l' else x :: dedup_nat l' end.
 
+(* ---------------------------------------------------------------- locations: model (C02/PathSel.v) against the generated servers *)
+
+Definition model_locs (rules : list (bool * string)) : list (bool * string) :=
+  map (fun l => (l_exact l, string_of (l_path l)))
+      (all_locs (map (fun r => PR (fst r) (chars_of (snd r))) rules)).
+
+(* external locations of a server block: exact flag and path *)
+Definition real_locs (srv : dir) : list (bool * string) :=
+  map (fun d => (loc_is_exact d, loc_path d))
+      (filter (fun d => negb (loc_internal d)) (dirs_named "location" (block_of srv))).
+
+Definition loc_eqb (a b : bool * string) : bool := Bool.eqb (fst a) (fst b) && seqb (snd a) (snd b).
+Definition loc_subset (a b : list (bool * string)) : bool := forallb (fun x => existsb (loc_eqb x) b) a.
+Definition loc_set_eqb (a b : list (bool * string)) : bool :=
+  loc_subset a b && loc_subset b a && Nat.eqb (List.length a) (List.length b).
+
+Definition server_blocks (conf : list dir) (port : Z) (name : string) (ssl : bool) : list dir :=
+  filter (fun s => server_listens port s && mem_str name (server_names s) && negb (server_is_default port s) &&
+                   Bool.eqb (server_is_ssl port s) ssl)
+         (flat_map (fun d => if seqb (d_name d) "server" then [d] else []) conf).
+
+(* every virtual server has a server block whose external locations are exactly the model's *)
+Definition locs_agree (conf : list dir) (c : case) : bool :=
+  forallb (fun sv =>
+             let '(port, name, ssl, rules) := sv in
+             existsb (fun s => loc_set_eqb (real_locs s) (model_locs rules)) (server_blocks conf port name ssl))
+          (k_servers c).
+
+(* When the location sets differ: look for a request path on which NGINX's choice among the real locations is not the
+   choice among the model's (which is the most specific matching rule, C02_selected_location_is_the_most_specific_match).
+   Candidates: every rule path, with a slash, a further element, or a further character appended. *)
+Local Infix "^^" := String.append (at level 55, right associativity).
+
+Definition candidate_paths (rules : list (bool * string)) : list string :=
+  flat_map (fun r => let p := snd r in [p; p ^^ "/"; p ^^ "/x"; p ^^ "x"; p ^^ "/x/y"]) rules ++ ["/"; "/zz"].
+
+Definition model_choice (rules : list (bool * string)) (u : string) : option (bool * string) :=
+  match select (all_locs (map (fun r => PR (fst r) (chars_of (snd r))) rules)) (chars_of u) with
+  | Some l => Some (l_exact l, string_of (l_path l))
+  | None => None
+  end.
+
+Definition real_choice (srv : dir) (u : string) : option (bool * string) :=
+  match select_location srv u with
+  | Some d => if loc_internal d then None else Some (loc_is_exact d, loc_path d)
+  | None => None
+  end.
+
+Definition opt_loc_eqb (a b : option (bool * string)) : bool :=
+  match a, b with Some x, Some y => loc_eqb x y | None, None => true | _, _ => false end.
+
+Definition wrong_choice_found (conf : list dir) (c : case) : bool :=
+  existsb (fun sv =>
+             let '(port, name, ssl, rules) := sv in
+             forallb (fun s => negb (loc_set_eqb (real_locs s) (model_locs rules)) &&
+                               existsb (fun u => negb (opt_loc_eqb (real_choice s u) (model_choice rules u))) (candidate_paths rules))
+                     (server_blocks conf port name ssl) &&
+             negb (match server_blocks conf port name ssl with [] => true | _ => false end))
+          (k_servers c).
+
 Definition check_case (c : case) : list nat :=
   match parse_conf (k_http c) with
   | None => [code_violation]
-  | Some conf => dedup_nat (flat_map (check_request (k_cluster c) conf (k_matches c)) (k_requests c))
+  | Some conf =>
+      dedup_nat ((if locs_agree conf c then [] else if wrong_choice_found conf c then [code_violation] else [code_mismatch]) ++
+                 flat_map (check_request (k_cluster c) conf (k_matches c)) (k_requests c))
   end.
 
 (* for replay files: which requests disagree *)
